@@ -518,9 +518,9 @@ def judge(mod, rec) -> dict:
     I = ir.get("answers", [])
     M = mr.get("answers")
     out = {"I_eq_T": None, "M_eq_T": None, "I_eq_M": None, "kind": "agree", "detail": None}
-    if ir.get("infra"):
-        out["kind"] = "infra"
-        out["detail"] = ir.get("fatal")
+    if ir.get("infra") or "harness: refusing" in str(ir.get("fatal") or "") + str(ir.get("errors") or ""):
+        out["kind"] = "infra"                   # a defect of the machinery (e.g. sparse.WRITE_CAP), never a verdict
+        out["detail"] = ir.get("fatal") or ir.get("errors")
         return out
     wf = mr.get("wf")
     in_scope = b.info.get("in_scope", True)
